@@ -12,6 +12,7 @@ import (
 	"go/types"
 	"os"
 	"path/filepath"
+	"runtime"
 	"sort"
 	"strings"
 	"sync"
@@ -92,7 +93,16 @@ func typeCheckDir(dir string) *tcResult {
 	var files []*ast.File
 	for _, fn := range bp.GoFiles {
 		p := filepath.Join(dir, fn)
-		f, err := parser.ParseFile(tcFset, p, nil, parser.ParseComments)
+		// the file is parsed under its GOROOT name (the corpus root is the symlink-resolved
+		// directory): go/build only finds the packages vendored into the standard library
+		// (reported as "vendor/golang.org/x/...") for importers located inside GOROOT/src
+		parseAs := p
+		if rel, rerr := filepath.Rel(corpusRoot(), p); rerr == nil && !strings.HasPrefix(rel, "..") {
+			if gp := filepath.Join(runtime.GOROOT(), "src", rel); fileExists(gp) {
+				parseAs = gp
+			}
+		}
+		f, err := parser.ParseFile(tcFset, parseAs, nil, parser.ParseComments)
 		if err != nil {
 			res.err = err
 			return res
@@ -112,6 +122,11 @@ func typeCheckDir(dir string) *tcResult {
 		res.err = err
 	}
 	return res
+}
+
+func fileExists(p string) bool {
+	st, err := os.Stat(p)
+	return err == nil && !st.IsDir()
 }
 
 func corpusRoot() string {
@@ -508,6 +523,15 @@ func c08Dirs(c *fw.Ctx) []string {
 	r := c.Rand("dirs")
 	r.Shuffle(len(cands), func(i, j int) { cands[i], cands[j] = cands[j], cands[i] })
 	var out []string
+	// always: a small package that imports a package vendored GOROOT-style (go/types reports it
+	// under "vendor/golang.org/x/..."), so that the vendor prefix has to be stripped
+	for _, p := range []string{"crypto/internal/hpke", "crypto/internal/mlkem768"} {
+		if st, err := os.Stat(filepath.Join(root, p)); err == nil && st.IsDir() {
+			out = append(out, filepath.Join(root, p))
+			n++
+			break
+		}
+	}
 	for _, p := range cands {
 		d := filepath.Join(root, p)
 		if st, err := os.Stat(d); err == nil && st.IsDir() {
